@@ -397,7 +397,7 @@ void* __wrap_malloc(size_t n) {
 // =========================================================================================================
 // /proc/self/maps
 // =========================================================================================================
-struct Probe { bool cov = false; int perms = 0; bool sh = false; unsigned long ino = 0; bool uniform = true; };
+struct Probe { bool cov = false; int perms = 0; bool sh = false; unsigned long ino = 0; bool uniform = true; bool any = false; };
 static char g_procbuf[1 << 21];
 
 static size_t read_proc_maps() {
@@ -424,21 +424,22 @@ static Probe probe(uintptr_t a, size_t n) {
   bool first = true;
   const char* p = g_procbuf;
   const char* e = g_procbuf + len;
-  while (p < e && cur < end) {
+  while (p < e) {
     const char* nl = (const char*)memchr(p, '\n', size_t(e - p));
     if (!nl) nl = e;
     unsigned long lo = 0, hi = 0, off = 0, ino = 0;
     char perms[8] = {0};
     unsigned dmaj = 0, dmin = 0;
     if (sscanf(p, "%lx-%lx %7s %lx %x:%x %lu", &lo, &hi, perms, &off, &dmaj, &dmin, &ino) >= 7) {
-      if (lo <= cur && cur < hi) {
+      if (lo < end && hi > (a & ~uintptr_t(4095))) pr.any = true;
+      if (cur < end && lo <= cur && cur < hi) {
         int bits = (perms[0] == 'r' ? 1 : 0) | (perms[1] == 'w' ? 2 : 0) | (perms[2] == 'x' ? 4 : 0);
         bool sh = perms[3] == 's';
         if (first) { pr.perms = bits; pr.sh = sh; pr.ino = ino; first = false; }
         else if (bits != pr.perms || sh != pr.sh || ino != pr.ino) pr.uniform = false;
         cur = hi;
       }
-      else if (lo > cur) break;
+      else if (lo >= end) break;
     }
     p = nl + 1;
   }
@@ -1053,7 +1054,7 @@ static void run_execution(const vj::Value& sc, const std::vector<std::pair<long,
   // End: independent accounting
   long fdleak = count_fds() - d.fd0;
   size_t left = 0;
-  for (size_t i = 0; i < g_nranges; i++) { Probe pr = probe(g_ranges[i].a, g_ranges[i].n); if (pr.cov) left++; }
+  for (size_t i = 0; i < g_nranges; i++) { Probe pr = probe(g_ranges[i].a, g_ranges[i].n); if (pr.any) left++; }
   vj::W v;
   v.beginObj().kv("e", "End").kv("fdleak", (long long)fdleak).kv("mapleft", (long long)left).kv("fc", (long long)g_fcount).endObj();
   emit(v);
